@@ -29,6 +29,13 @@ def extra_programs():
                 [A(V('vb'), Call('f', [V('va'), V('vc')])), If(B(op, V('vc'), C(1)), A(V('vd'), C(1)), A(V('vd'), C(2))), A(V('va'), Call('f', [V('vc'), V('vb')]))])
         add('inl/wcmp/%s' % op, [F('f', 'u8', [('u16', 'x'), ('u16', 'y')], Block([If(B(op, V('x'), V('y')), ret(C(1))), ret(C(2))]))],
             [A(V('vb'), Call('f', [V('wa'), V('wb')])), While(B('&&', B(op, V('wa'), V('wb')), B('<', V('vc'), C(2))), inc('vc')), A(V('vd'), Call('f', [V('wb'), V('wa')]))])
+    # values assigned right after an inlined call (the registers the callee's last path left behind must not be trusted)
+    for tail_n, tail in (('s0', lambda: A(V('vc'), C(0))), ('s1', lambda: A(V('vc'), C(1))), ('sx', lambda: A(V('X'), C(0))), ('cmp', lambda: If(B('==', V('vb'), C(1)), A(V('vc'), C(5)))), ('w0', lambda: A(V('wa'), C(0)))):
+        add('inl/ret01/' + tail_n, [F('f', 'u8', [('u8', 'a')], Block([If(B('>', V('a'), C(9)), ret(C(1))), ret(C(0))]))], [A(V('vb'), Call('f', [V('va')])), tail()])
+        add('inl/ret_var/' + tail_n, [F('f', 'u8', [('u8', 'a')], Block([If(B('&', V('a'), C(1)), ret(V('a'))), If(B('&', V('a'), C(2)), ret(C(2))), ret(C(0))]))], [A(V('vb'), Call('f', [V('va')])), tail(), A(V('vd'), Call('f', [V('vc')]))])
+        add('inl/void_early/' + tail_n, [F('f', None, [('u8', 'a')], Block([If(B('==', V('a'), C(0)), Return()), A(V('vd'), C(0)), inc('vd')]))], [ExprS(Call('f', [V('va')])), tail(), ExprS(Call('f', [V('vb')]))], extra=['vd'])
+    add('inl/do_while_y', [F('g', None, [], Block([A(V('X'), C(0)), inc('vc')]))], [A(V('Y'), B('&', V('Y'), C(3))), DoWhile(Block([dec('Y'), ExprS(Call('g', []))]), V('Y'))], extra=['vc'])
+    add('inl/while_y', [F('g', None, [], Block([A(V('va'), C(0))]))], [A(V('Y'), B('&', V('Y'), C(3))), While(V('Y'), Block([dec('Y'), ExprS(Call('g', []))]))])
     add('inl/block_return', [F('f', 'u8', [('u8', 'a')], Block([If(V('a'), Block([A(V('vb'), C(1)), ret(C(1))])), A(V('vb'), C(2)), ret(C(0))]))], [A(V('vc'), Call('f', [V('va')]))], extra=['vb'])
     add('inl/nested_inline', [F('g', 'u8', [('u8', 'y')], Block([If(B('==', V('y'), C(3)), ret(C(7))), ret(V('y'))])),
                               F('f', 'u8', [('u8', 'x')], Block([ret(B('+', Call('g', [V('x')]), Call('g', [C(3)])))]))],
